@@ -7,6 +7,7 @@ import pathsum
 import witness
 from pathsum import ERR, NONE, OK, SOME, show_term
 
+RERUN_ON_CONFIGS = ("dfm", "std")
 LEVEL = "translation_validation"
 RULE_TEXT = ("C01-T: for every witness interface (hand-designed families + VERIF_SEED-generated declaration sets, all "
              "compiled through the real macro of the current tree, never run) the language of the emitted Node trie - "
@@ -46,6 +47,8 @@ def run(ck):
 
 
 def rule_T(ck, T="C01-T", D="C01-D"):
+    if getattr(ck, "cfg_rerun", False):
+        return      # witness interfaces are compiled against the default configuration only
     count = 400 if ck.tier == "thorough" else 40
     fs, specs, failures = witness.build(ck, ck.seed, count)
     wit = fs.crate("wit.rlib")
@@ -341,6 +344,8 @@ def rule_S(ck):
     a trailing '?' makes it a query, `[x]` marks an optional part, short = the part's characters that are not lower
     case, long = the part upper-cased; paths() emits for every part the long form, the short form when it differs, and
     nothing when the part is optional, on top of every path built so far."""
+    if getattr(ck, "cfg_rerun", False):
+        return      # witness interfaces are compiled against the default configuration only
     import bytecls
     m = ctx.macros(ck)
     if m is None:
